@@ -306,6 +306,32 @@ int main(int argc, char **argv) {
     st.inc("seed0_vs_seed1_outputs_compared", n);
   }
 
+  // ---- re-seeding a generator that was already used gives the stream of the new seed (set_seed is how the
+  //      simulations seed their per-thread generators; FractalDensityMask re-seeds used generators) ----
+  if (only < 0 || only == 250000) {
+    vh::Rng r = master.fork(25);
+    uint64_t nreseed = 0, ncmp = 0;
+    for (int rep = 0; rep < 400; ++rep) {
+      RandomGenerator g((int_fast32_t)r.below(1ull << 31));
+      const uint64_t used = r.below(60);
+      for (uint64_t k = 0; k < used; ++k) g.get_uniform_random_double();
+      const uint64_t s2 = (rep % 9 == 0) ? 0 : r.below(1ull << 31);
+      g.set_seed((int_fast32_t)s2);
+      gsl_rng_set(g_gsl, (unsigned long)(s2 == 0 ? 1 : s2));
+      for (int k = 0; k < 40; ++k) {
+        const double a = g.get_uniform_random_double(), b = gsl_rng_uniform(g_gsl);
+        ++ncmp;
+        if (vh::bits(a) != vh::bits(b)) {
+          VH_VIOL("reseed/not-fresh-stream", 250000, "generator used for %" PRIu64 " draws then set_seed(%" PRIu64 "): output %d is %.17g, ranlxd2 gives %.17g", used, s2, k, a, b);
+          break;
+        }
+      }
+      ++nreseed;
+    }
+    st.inc("reseeded_generators", nreseed);
+    st.inc("reseed_outputs_compared", ncmp);
+  }
+
   // ---- distinct seeds give distinct first-24-output prefixes (sampled seed set) ----
   if (only < 0 || only == 300000) {
     std::vector<uint64_t> pseeds(seeds);
